@@ -999,6 +999,15 @@ impl Observer for AuthzObserver {
         let after_all = w.full_all(who);
         let after = &after_all[0];
         self.judged += 1;
+        // the echo of an own commit merges whatever commit is pending at that moment - which is
+        // another one when the echoed commit was superseded meanwhile: judge what was applied
+        let ev = match w.own_pending_before_delivery {
+            Some(p) if ev.author == who && p != idx && matches!(outcome, Outcome::Commit) && w.relay[p].author == who => {
+                self.classes.insert("own-echo-merged-a-newer-pending-commit".into());
+                &w.relay[p]
+            }
+            _ => ev,
+        };
         let author_pk = w.clients[ev.author].pk_hex();
         let rolled = rollback_fired_now(w, who, idx);
         let describe = || {
